@@ -105,7 +105,9 @@ def join(xs):
     return ','.join(str(x) for x in xs) if xs else '-'
 
 SUBSET_RATES = [8000, 16000, 22050, 24000, 32000, 44100, 48000, 88200, 96000, 176400, 192000,
-                1000, 5000, 254000, 12345, 65534, 655340, 11, 9990]
+                1000, 5000, 254000, 12345, 65534, 655340, 11, 9990,
+                # multiples of 100 Hz that are not whole kHz (no kHz code may be chosen for them), incl. below 1 kHz and at the kHz code's end
+                37800, 11100, 64100, 254900, 100, 900]
 SUBSET_BPS = [8, 12, 16, 20, 24, 32]
 
 def option_fields(rng, small=True):
